@@ -1,6 +1,6 @@
 use log::trace;
 use std::cmp::{Ordering, min, max};
-use std::collections::HashMap;
+use std::collections::{HashMap, HashSet};
 use std::fmt;
 
 use super::{VariableName, VariableType};
@@ -454,6 +454,9 @@ pub struct DegreeEnvironment {
     // bounds of the degree of each variable.
     degree_ranges: HashMap<VariableName, DegreeRange>,
     var_types: HashMap<VariableName, VariableType>,
+    // Local variables which are assigned to (whether or not the degree of the
+    // assigned value is known).
+    assigned: HashSet<VariableName>,
 }
 
 impl DegreeEnvironment {
@@ -478,6 +481,18 @@ impl DegreeEnvironment {
         if self.var_types.insert(var.clone(), var_type.clone()).is_none() {
             trace!("setting type of `{var:?}` to `{var_type}`");
         }
+    }
+
+    /// Records that the given variable is assigned to.
+    pub fn set_assigned(&mut self, var: &VariableName) {
+        self.assigned.insert(var.clone());
+    }
+
+    /// Returns true if the given variable is assigned to. (The degree of an
+    /// assigned variable may still be unknown.)
+    #[must_use]
+    pub fn is_assigned(&self, var: &VariableName) -> bool {
+        self.assigned.contains(var)
     }
 
     /// Gets the degree range of the given variable.
